@@ -55,7 +55,8 @@ func makeBase(t *rapid.T, st *ev.Stats) (*backupBase, *World) {
 }
 
 func makeBaseCfg(t *rapid.T, st *ev.Stats, delta bool) (*backupBase, *World) {
-	cfg := Cfg{MM: false, KV: rapid.Bool().Draw(t, "kv"), Delta: delta, NWriters: rapid.IntRange(1, 2).Draw(t, "writers")}
+	// the delta base always uses the key-value comparator: its restore path hands items to the comparator
+	cfg := Cfg{MM: false, KV: rapid.Bool().Draw(t, "kv") || delta, Delta: delta, NWriters: rapid.IntRange(1, 2).Draw(t, "writers")}
 	w := NewWorld(t, cfg, st)
 	sizes := []int{0, 1, 3, 8, 20, 20}
 	if os.Getenv("VERIF_TIER") == "thorough" {
@@ -356,6 +357,41 @@ func TestC11(t *testing.T) {
 			c11Enumerate(t, st, tier, known, delta)
 		}
 	})
+	// the two fixed backups (few-letter keys with running numbers: many shards share an XOR checksum):
+	// every byte of their manifests with every mask
+	for which := 0; which < 2; which++ {
+		b := fuzzBaseFor(t, which)
+		bad := map[string]string{}
+		for _, rel := range b.names {
+			cl := fileClass(rel)
+			if cl == "data-shard" || cl == "delta-shard" {
+				continue
+			}
+			step := 7
+			if tier == "thorough" {
+				step = 1
+			}
+			for off := 0; off < len(b.files[rel]); off++ {
+				for m := 1 + off%step; m < 256; m += step {
+					f := fault{rel: rel, kind: "flip", off: off, xor: byte(m)}
+					b.apply(f)
+					o := b.loadOnce(1 + (off+m)%3)
+					b.undo(f)
+					st.Case(b.desc+" "+f.String(), true, "outcome-"+o.class, "file-"+cl, "kind-flip")
+					if o.class != "error" && o.class != "exact" && o.class != "INCONCLUSIVE-SLOW" {
+						sig := fmt.Sprintf("%s:flip:%s", cl, o.class)
+						if _, ok := bad[sig]; !ok && !known[sig] {
+							bad[sig] = fmt.Sprintf("%s: %s (%d items instead of %d)", f.String(), o.class, len(o.got), len(b.content))
+						}
+					}
+				}
+			}
+		}
+		for sig, ex := range bad {
+			st.Fail(sig, b.desc+": "+ex)
+			t.Fatalf("FAIL[%s] damaged manifest not handled on %s: %s", sig, b.desc, ex)
+		}
+	}
 }
 
 func c11Enumerate(t *rapid.T, st *ev.Stats, tier string, known map[string]bool, delta bool) {
